@@ -671,6 +671,11 @@ func (s *storage) ReceiveBlob(ctx context.Context, br blob.Ref, source io.Reader
 		if err == nil && fi.Size() >= m.offset+int64(m.size) {
 			return sbr, nil
 		}
+	} else if !errors.Is(err, os.ErrNotExist) {
+		// The index could not tell whether we have it already. Appending
+		// it regardless could leave two records of it in the packs, only
+		// one of which a later removal would erase.
+		return sbr, err
 	}
 
 	err = s.append(sbr, &b)
